@@ -48,7 +48,7 @@ def gen(rng, tier, i):
     return {'script': script, 'm': m, 'sims': sims, 'cycles': cycles, 'vals': [rng.randrange(8) for _ in range(rng.randint(3, 23))],
             'knobs': {'c_reuse': rng.random() < 0.4, 'strip_forks': rng.random() < 0.4}, 'api': rng.choice(['explicit', 'cycle', 'cycle']), 'inj': inj,
             'cb_style': rng.choice(['function', 'function', 'falsy_object', 'partial', 'method']), 'call_form': rng.choice(['keyword', 'positional']),
-            'cb_return': rng.choice(['none', 'none', 'none', 'true', 'zero', 'line', 'array'])}
+            'cb_return': rng.choice(['none', 'none', 'none', 'true', 'zero', 'line', 'array']), 'sims_type': rng.choice(['int', 'int', 'int', 'int64', 'int32'])}
 
 
 def evaluated_lines(circuit, strip):
@@ -109,6 +109,7 @@ def execute(case):
     c = built.circuit
     m, sims, cycles = case['m'], case['sims'], case['cycles']
     mdim = {2: 1, 4: 2, 8: 3}[m]
+    sims_arg = sims if case.get('sims_type', 'int') == 'int' else getattr(np, case['sims_type'])(sims)      # a lane count taken from an array shape / a NumPy computation
     knobs = case['knobs']
     al = lsim.ALPHABET[m]
     snodes = refmodels.s_nodes_of(c)
@@ -160,13 +161,13 @@ def execute(case):
         return snaps_in, snaps_out
 
     # ---- reference: no callback
-    ref = lsim.make(c, sims, m, knobs['c_reuse'], knobs['strip_forks'])
+    ref = lsim.make(c, sims_arg, m, knobs['c_reuse'], knobs['strip_forks'])
     lsim.assign(ref, mva)
     ref_in, ref_out = drive(ref, None, case['api'])
     ref_c = ref.c.copy()
     # ---- untouched callback: identical s[1] and c
     events0 = []
-    t = lsim.make(c, sims, m, knobs['c_reuse'], knobs['strip_forks'])
+    t = lsim.make(c, sims_arg, m, knobs['c_reuse'], knobs['strip_forks'])
     lsim.assign(t, mva)
     t_in, t_out = drive(t, wrap_callback(lambda line, view: events0.append(operator.index(line)), case.get('cb_style', 'function'), case.get('cb_return', 'none')), case['api'])
     res.probe('untouched_callback_run')
@@ -176,7 +177,7 @@ def execute(case):
     if not np.array_equal(t.c, ref_c):
         res.violate('untouched-callback-changes-memory', f'm={m}: signal memory differs between c_prop(cb) with an untouched callback and c_prop()'); return res
     # ---- run under test: monitor + injector
-    sim = lsim.make(c, sims, m, knobs['c_reuse'], knobs['strip_forks'])
+    sim = lsim.make(c, sims_arg, m, knobs['c_reuse'], knobs['strip_forks'])
     lsim.assign(sim, mva)
     events = []   # (cycle, line index, planes snapshot before overwrite)
     nbytes = (sims - 1) // 8 + 1
